@@ -58,6 +58,11 @@ type Options struct {
 	ColumnsRepeated  bool `json:"columns_repeated,omitempty"`   // one table:table-column with table:number-columns-repeated (§19.675)
 	Noise            bool `json:"noise,omitempty"`              // text:sequence-decls, text:soft-page-break (§5.6), text:bookmark (§6.2.1.2), office:forms
 	Version11        bool `json:"version11,omitempty"`          // office:version="1.1"
+	// ShadowAutoStyles: the <office:automatic-styles> of styles.xml hold styles with the names content.xml uses for
+	// its own automatic styles (list styles with bullets and numbers swapped, heading-based paragraph styles without
+	// a parent, T1). They format the header and footer of the master page only (§3.15.3): automatic styles of the
+	// two files are separate name spaces.
+	ShadowAutoStyles bool `json:"shadow_auto_styles,omitempty"`
 
 	Extra []wpmodel.Member `json:"extra,omitempty"`
 }
@@ -77,6 +82,7 @@ func GenOptions(t *rapid.T) Options {
 	}
 	o.StoreAll = rapid.IntRange(0, 3).Draw(t, "store") == 3
 	o.AlwaysStyles = rapid.Bool().Draw(t, "always_styles")
+	o.ShadowAutoStyles = rapid.IntRange(0, 3).Draw(t, "shadow_auto_styles") == 0
 	o.ListStylesNamed = rapid.Bool().Draw(t, "list_styles_named")
 	o.NestedStyleName = rapid.Bool().Draw(t, "nested_style_name")
 	o.NoDefaultOutline = rapid.IntRange(0, 2).Draw(t, "no_default_outline") == 2
@@ -163,7 +169,7 @@ func (w *writer) version() string {
 }
 
 func (w *writer) needStyles() bool {
-	if w.o.AlwaysStyles || w.d.Header != nil || w.d.Footer != nil {
+	if w.o.AlwaysStyles || w.o.ShadowAutoStyles || w.d.Header != nil || w.d.Footer != nil {
 		return true
 	}
 	if w.o.ListStylesNamed && len(w.d.Lists) > 0 {
@@ -356,11 +362,21 @@ func (w *writer) content() []byte {
 
 // listStyles writes one text:list-style per list definition (§16.30) with ten
 // levels (§19.828: 1-based text:level).
-func (w *writer) listStyles(x *wpmodel.XW) {
+func (w *writer) listStyles(x *wpmodel.XW) { w.listStylesAs(x, false) }
+
+// listStylesAs writes the list styles; swapped exchanges bullets and numbers (decoys for ShadowAutoStyles).
+func (w *writer) listStylesAs(x *wpmodel.XW, swapped bool) {
 	for i, ld := range w.d.Lists {
 		x.Open(w.text+":list-style", w.style+":name", ListStyleName(i))
 		for lvl := 0; lvl < 10; lvl++ {
 			k := ld.Kinds[lvl%len(ld.Kinds)]
+			if swapped {
+				if k == wpmodel.LBullet {
+					k = wpmodel.LDecimal
+				} else {
+					k = wpmodel.LBullet
+				}
+			}
 			if k == wpmodel.LBullet {
 				x.Open(w.text+":list-level-style-bullet", w.text+":level", strconv.Itoa(lvl+1), w.text+":bullet-char", "•") // §16.31.3
 				x.Empty(w.style + ":list-level-properties")
@@ -667,6 +683,22 @@ func (w *writer) stylesXML() []byte {
 	x.Open(w.style+":page-layout", w.style+":name", "pm1") // §16.5
 	x.Empty(w.style+":page-layout-properties", w.fo+":page-width", "21cm", w.fo+":page-height", "29.7cm")
 	x.Close(w.style + ":page-layout")
+	if w.o.ShadowAutoStyles {
+		x.Empty(w.style+":style", w.style+":name", "T1", w.style+":family", "text")
+		seen := map[string]bool{}
+		for _, b := range w.d.Blocks {
+			if b.Kind != wpmodel.BHeading || (b.How != wpmodel.HowBased && b.How != wpmodel.HowBased2) {
+				continue
+			}
+			if name := HeadingStyleName(b.How, b.Level); !seen[name] {
+				seen[name] = true
+				x.Empty(w.style+":style", w.style+":name", name, w.style+":family", "paragraph", w.style+":parent-style-name", "Standard")
+			}
+		}
+		if !w.o.ListStylesNamed {
+			w.listStylesAs(x, true)
+		}
+	}
 	x.Close(w.office + ":automatic-styles")
 	x.Open(w.office + ":master-styles")
 	x.Open(w.style+":master-page", w.style+":name", "Standard", w.style+":page-layout-name", "pm1") // §16.9
